@@ -9,8 +9,12 @@ of next/capture/restore operations is replayed on the real iterators:
   chain2   two named stages, aggregate in the last
   chain2a  two named stages, aggregate in the first (state of a non-final stage)
 
-Threaded configurations (num_threads > 0) are driven by the deterministic scheduler in
-checks/c10_threads (same spec, Prefetch action enabled).
+Threaded configurations (num_threads > 0): spec/source/CheckpointThreads.tla models the worker
+threads reading ahead of the consumer through the bounded result queue; TLC decides which
+checkpoint design is exact (per-shard delivered counts) and which is not (the shard
+iterators' own positions, as implemented); the real threaded pipeline iterator is then
+checkpointed at quiescent points (workers blocked on the full queue or exhausted) and the
+resumed run is compared with the specification's prediction and with the property.
 """
 from __future__ import annotations
 
@@ -260,12 +264,97 @@ def _replay_subject(i, hs):
   return col.viols, okc
 
 
+def _threaded_run(n, p, d, with_agg):
+  """Consume d elements of a pipeline with num_threads=p, wait for the workers to quiesce, capture, restore, drain."""
+  import time
+  from ml_metrics._src.chainables import io, transform
+  from harness import lib
+  t = transform.TreeTransform.new(name='p', num_threads=p).data_source(io.SequenceDataSource(list(range(n)))).apply(fn=lib.ident)
+  if with_agg:
+    t = t.aggregate(fn=lib.Collect())
+  it = t.make().iterate()
+  before = [next(it) for _ in range(d)]
+  runner_it = it._iterators[0]
+
+  def positions():
+    return [s._index for s in runner_it._source_iterators]
+
+  last, stable_since = positions(), time.time()
+  deadline = time.time() + 5
+  while time.time() < deadline:
+    time.sleep(0.005)
+    cur = positions()
+    if cur != last:
+      last, stable_since = cur, time.time()
+    elif time.time() - stable_since > 0.15:
+      break
+  state = it.state
+  it2 = it.from_state(state)
+  after = list(it2)
+  agg = it2.agg_result if with_agg else None
+  it.maybe_stop()
+  return before, after, agg, last
+
+
+def threaded_part(chk):
+  import os
+  lib_path = ['-DTLA-Library=' + os.path.join(common.VERIF, 'spec', 'source')]
+  for n, p in (((7, 2), (4, 1)) if chk.tier != 'thorough' else ((9, 2), (5, 1), (10, 3))):
+    bad = tlc.run('source', 'CheckpointThreads', tlc.cfg_text(constants=dict(N=n, P=p, SourcePos=True), invariants=['LocalOrder', 'NoRepeat', 'Exact'],
+                                                              deadlock=False), timeout=1800, java_opts=lib_path)
+    good = tlc.run('source', 'CheckpointThreads', tlc.cfg_text(constants=dict(N=n, P=p, SourcePos=False), invariants=['LocalOrder', 'NoRepeat', 'Exact'],
+                                                               deadlock=False), timeout=1800, java_opts=lib_path, coverage=True)
+    chk.add_tlc(good, f'CheckpointThreads/N={n} P={p}/delivered-counts')
+    chk.add_tlc(bad, f'CheckpointThreads/N={n} P={p}/source-positions')
+    chk.coverage.setdefault('threads_design', {})[f'N={n} P={p}'] = dict(source_positions=bad.error_name or 'ok', delivered_counts=good.error_name or 'ok')
+    if not good.ok:
+      chk.machinery_failure(f'CheckpointThreads.tla: the exact design violates {good.error_name}')
+    if bad.ok:
+      chk.machinery_failure('CheckpointThreads.tla accepts checkpoints made of source positions: Exact is vacuous')
+  # the real threaded iterator at quiescent points
+  for n, p, d in ((10, 2, 2), (10, 2, 0), (4, 2, 1), (12, 1, 3), (20, 2, 5), (7, 3, 2)):
+    for with_agg in (False, True):
+      try:
+        before, after, agg, pos = _threaded_run(n, p, d, with_agg)
+      except Exception as e:  # pylint: disable=broad-exception-caught
+        chk.violation(f'threads:exception:{type(e).__name__}', f'n={n} threads={p} delivered={d}: {e!r}', dict(kind='checkpoint-threads', n=n, p=p, d=d))
+        continue
+      chk.replayed()
+      ctx = dict(kind='checkpoint-threads', n=n, num_threads=p, delivered_before_capture=d, aggregate=with_agg, before=before, after=after)
+      cfg = f'n={n} num_threads={p} captured after {d} elements'
+      dup = sorted(set(before) & set(after))
+      lost = sorted(set(range(n)) - set(before) - set(after))
+      # conformance with CheckpointThreads.tla (Restore): the resumed run delivers exactly the elements at or after
+      # the captured shard positions
+      his, lo = [], 0
+      q_, r_ = divmod(n, p)
+      for w in range(p):
+        ln = q_ + (1 if w < r_ else 0)
+        his.append((lo, lo + ln))
+        lo += ln
+      predicted_after = sorted(x for w, (l_, h_) in enumerate(his) for x in range(max(pos[w], l_), h_))
+      if sorted(after) != predicted_after:
+        print(f'MODEL-DRIFT property=C10 threads [{cfg}]: resumed run delivered {sorted(after)}, the specification predicts {predicted_after} '
+              f'from the captured positions {pos}')
+      if dup:
+        chk.violation('threads:restore-repeats-elements', f'[{cfg}] repeated {dup}', ctx)
+      if lost:
+        chk.violation('threads:restore-skips-prefetched-elements',
+                      f'[{cfg}] elements {lost} were read ahead by the worker threads, are not part of the captured state and are never delivered '
+                      f'(delivered before {sorted(before)}, after restore {sorted(after)})', ctx)
+      if with_agg and not lost and not dup:
+        got = sorted(agg if isinstance(agg, list) else list(dict(agg).values())[0])
+        if got != sorted(range(n)):
+          chk.violation('threads:aggregate-after-restore', f'[{cfg}] aggregate {got}', ctx)
+
+
 def body(chk):
+  threaded_part(chk)
   b = _bounds(chk.tier)
   chk.coverage['bounds'] = b
   chk.assumptions += [
       'elements are abstract positions; pipelines add a constant per stage',
-      'threaded configurations are covered by the scheduler-driven part (see evidence key threads)',
+      'threaded configurations are checkpointed at quiescent points (workers blocked or exhausted); other capture points differ only in how many elements are in flight',
   ]
   invs = ['Exact', 'PosInRange', 'SavedInRange']
   mc = tlc.run('source', 'Checkpoint',
